@@ -5,7 +5,7 @@
     every operation starts with brings it back within capacity or evicts a whole batch
     (progress); a fresh insert heavier than the capacity is never retained.
     Concurrent cache: see the sync section (after the maintenance run that empties the queues). *)
-From MM Require Import Unsync.UInvDefs Unsync.UInv Unsync.UPolicyDefs Unsync.UPolicy Sync.SInvDefs Sync.SInvWrites Sync.SInvTop Sync.SPolicyDefs Sync.SPolicy Conc.HK.
+From MM Require Import Unsync.UInvDefs Unsync.UInv Unsync.UPolicyDefs Unsync.UPolicy Sync.SInvDefs Sync.SInvWrites Sync.SInvTop Sync.SPolicyDefs Sync.SPolicy Conc.HK Sync.SRecency Sync.SEndToEnd.
 
 Theorem C04_unsync_never_grows_beyond_capacity : forall c r o r' out cap,
   cfg_ok c -> WF' c (ur_state r) -> small (ur_state r) -> ustep c r o = Ok (r', out) -> uc_cap c = Some cap ->
@@ -84,6 +84,32 @@ Theorem C04_sync_oversized_never_retained : forall c s k ve w s',
   end.
 Proof. exact s_pending_insert_outcome. Qed.
 
+(** OPERATION LEVEL, concurrent cache with maintenance after every operation (Sync/SEndToEnd.v): the
+    operation and the maintenance run that follows it, composed, in BOTH housekeeping regimes, stated on
+    the quiescent state before the operation (no expiry configured, no invalidate_all cut-off pending). *)
+Theorem C04_sync_update_then_maintenance : forall c r k v v0 r1 o1 r2 o2,
+  let s := sr_state r in let s' := sr_state r2 in let w := sweigh c k v in
+  scfg_ok c -> SInv c s -> s_small s -> s_next s + 1 < 2 ^ 31 ->
+  quiescent s -> noexp c s -> within c s ->
+  s_view s !! k = Some v0 ->
+  sstep c r (SInsert k v) = Ok (r1, o1) -> sstep c r1 SSync = Ok (r2, o2) ->
+  SInv c s' /\ quiescent s' /\
+  let order := touch k (s_lru_keys s) in
+  let m := <[k := v]> (s_view s) in
+  let total := s_ws s + w - sweigh c k v0 in
+  let excess := match sc_cap c with Some cap => total - cap | None => 0 end in
+  k ∈ s_lru_keys s /\ sweigh c k v0 <= s_ws s /\
+  exists n,
+    s_lru_keys s' = drop n order /\
+    s_view s' = delete_keys (take n order) m /\
+    s_ws s' + keys_weight c m (take n order) = total /\
+    (n = 0%nat \/ keys_weight c m (take (n - 1) order) < excess) /\
+    (excess <= keys_weight c m (take n order) \/ n = batch_s \/ n = length order) /\
+    (n = 0%nat <-> excess = 0) /\
+    (within c s' \/ n = batch_s).
+Proof. exact s_update_sync_outcome. Qed.
+
+Print Assumptions C04_sync_update_then_maintenance.
 Print Assumptions C04_sync_within_capacity_after_maintenance.
 Print Assumptions C04_sync_oversized_never_retained.
 Print Assumptions C04_sync_ws_is_resident_weight_after_maintenance.
